@@ -830,6 +830,18 @@ class WorkflowStateMachine(object):
         if current_workflow_status != new_workflow_status:
             workflow_state.status = new_workflow_status
 
+        # A paused workflow that has nothing left to run is completed on resume. As when the
+        # workflow is completed by a task event, ensure there is no unreachable barrier task(s).
+        if workflow_state.status == statuses.SUCCEEDED:
+            unreachable_barriers = workflow_state.get_unreachable_barriers()
+
+            if unreachable_barriers:
+                workflow_state.status = statuses.FAILED
+
+                for entry in unreachable_barriers:
+                    e = exc.UnreachableJoinError(entry["id"], entry["route"])
+                    workflow_state.conductor.log_error(e, task_id=entry["id"], route=entry["route"])
+
     @classmethod
     def process_event(cls, workflow_state, event):
         if isinstance(event, events.WorkflowExecutionEvent):
